@@ -34,6 +34,7 @@ class Scen:
     pre: list = field(default_factory=list)    # (lock, 'w', tid) | (lock, 'r', [tids])
     f1: list = field(default_factory=list)
     fp: list = field(default_factory=list)     # (lock, 'OLock' ...)
+    unw: list = field(default_factory=list)    # threads that run inside a destructor while already unwinding
     fuel: int = 8
     npids: int = 0
     nuids: int = 0
@@ -61,6 +62,8 @@ class Scen:
             o.append("f1 " + " ".join(map(str, self.f1)))
         if self.fp:
             o.append("fp " + " ".join(f"{l} {k}" for l, k in self.fp))
+        if self.unw:
+            o.append("unw " + " ".join(map(str, self.unw)))
         if self.sched:
             o.append(f"mode sched {self.sched[0]} " + " ".join(map(str, self.sched[1])))
             for t, ops in self.progs:
